@@ -486,6 +486,14 @@ def r7_wordnet_handed_on(ctx, res):
         raise AnalysisError(f'only {n} constructions of Word/Sense/Synset found')
 
 
+def r8_rows_owned_by_the_lexicon_being_added(ctx, res):
+    """the lexicon filter of every query compares `lexicon_rowid`: it is only as good as the owner the importer records.
+    Every row written into a table with a lexicon_rowid column is owned by the lexicon being added (C05-R7) - a form of an
+    extension recorded under the base lexicon's rowid is found by a Wordnet restricted to the base."""
+    from .c05 import r7_ownership
+    r7_ownership(ctx, res)
+
+
 RULES = [
     ('C04-R1', r1_sql_scoping, 40),
     ('C04-R2', r2_callsite_provenance, 30),
@@ -494,4 +502,5 @@ RULES = [
     ('C04-R5', r5_constructor_provenance, 8),
     ('C04-R6', r6_scope_recomputed, 150),
     ('C04-R7', r7_wordnet_handed_on, 12),
+    ('C04-R8', r8_rows_owned_by_the_lexicon_being_added, 12),
 ]
